@@ -271,6 +271,20 @@ def option_default_rule(A: Analysis, col: Collector, rule: str):
                 else:
                     col.fail(rule, fn.qualname, f"default-duplicates-user-option:{opt}", f"--{opt}= is appended although the user supplied one: the option is duplicated / overridden", A.loc(ap.stmt))
     if n < 3:
+        # the look-ups may have been moved into a token-scanning helper: a method of the worker that run() calls
+        # with the option spellings as string constants
+        cls_ = fn.cls
+        helper_calls = [c for c in A.calls(fn) if isinstance(c.func, ast.Attribute) and dotted(c.func.value) == "self" and cls_ is not None and c.func.attr in cls_.methods and sum(1 for a in c.args if isinstance(a, ast.Constant) and isinstance(a.value, str) and a.value.startswith("-")) >= 1]
+        if len(helper_calls) >= 3:
+            h = cls_.methods[helper_calls[0].func.attr]
+            col.scope(h.qualname)
+            hp = [p_.arg for p_ in h.params() if p_.arg != "self"]
+            sliced = [l for l in walk_own(h.node) if isinstance(l, ast.For) and any(isinstance(k, ast.Subscript) and isinstance(k.value, ast.Name) and k.value.id in hp and isinstance(k.slice, ast.Slice) and (k.slice.upper is not None or k.slice.lower is not None) for k in ast.walk(l.iter))]
+            if sliced:
+                col.fail(rule, h.qualname, "option-scan-skips-tokens", f"`for ... in {norm(sliced[0].iter, 40)}` scans only part of the user's sbatch_args: an option in the excluded position (e.g. `--job-name=x` as the last token) is not seen, the worker appends its own after it and sbatch lets the later one win -- the user's job name / output / error file is lost", A.loc(sliced[0]))
+            else:
+                col.ok(rule, f"{h.name} scans the complete list of user tokens ({len(helper_calls)} look-ups in run)", A.loc(h.node))
+            return
         raise AnalysisError(f"C28: {n} option searches (job-name/output/error) found in SlurmWorker.run; floor 3")
 
 
@@ -278,6 +292,19 @@ def status_table_rule(A: Analysis, col: Collector, rule: str):
     run = A.func("pydra.workers.slurm.SlurmWorker.run")
     ver = A.func("pydra.workers.slurm.SlurmWorker._verify_exit_code")
     col.scope(run.qualname, ver.qualname)
+    # per-job entries that run() stores once after sbatch are only read by the polling functions: these are
+    # called again for the same job id (requeue after CANCELLED/TIMEOUT/PREEMPTED, transient squeue errors)
+    stored = {t.value.attr for n in walk_own(run.node) if isinstance(n, ast.Assign) for t in n.targets if isinstance(t, ast.Subscript) and isinstance(t.value, ast.Attribute) and dotted(t.value.value) == "self"}
+    if not stored:
+        raise AnalysisError("C28: no per-job table stored by SlurmWorker.run (self.<table>[jobid] = ...) was found")
+    for q in ("pydra.workers.slurm.SlurmWorker._verify_exit_code", "pydra.workers.slurm.SlurmWorker._poll_job"):
+        f = A.func(q)
+        consumed = [c for c in A.calls(f) if isinstance(c.func, ast.Attribute) and c.func.attr in ("pop", "popitem", "clear") and isinstance(c.func.value, ast.Attribute) and c.func.value.attr in stored]
+        consumed += [d for d in walk_own(f.node) if isinstance(d, ast.Delete) and any(isinstance(t, ast.Subscript) and isinstance(t.value, ast.Attribute) and t.value.attr in stored for t in d.targets)]
+        if consumed:
+            col.fail(rule, f.qualname, "per-job-entry-consumed-by-poll", f"`{norm(consumed[0], 40)}` removes the entry run() stored once for the job, but {f.name} is called again for the same job id after a requeue (or when squeue fails while sacct says RUNNING): the second call raises KeyError and the job is reported failed although the scheduler completes it", A.loc(consumed[0]))
+        else:
+            col.ok(rule, f"{f.name} only reads the per-job tables {sorted(stored)} that run() fills once per submission", A.loc(f.node))
 
     def str_lists(f, pred):
         out = []
